@@ -74,5 +74,49 @@ def main(path):
     return 0
 
 
+def fuzz(mods, hname, trials, seed):
+    """CPython differential: the contract text evaluated natively on random inputs (must hold on the tree)"""
+    here = os.path.dirname(os.path.dirname(os.path.abspath(__file__)))
+    sys.path.insert(0, here)
+    import importlib
+    import random
+    from pyvc import api
+    from pyvc.native_ops import Ctx, ReplayPrecondition
+    for m in mods.split(","):
+        importlib.import_module("contracts." + m)
+    rng = random.Random(seed)
+    res = {"harness": hname, "runs": 0, "skipped": 0, "clauses": 0, "failed": {}, "errors": []}
+    for h in api.REGISTRY["harness"]:
+        if hname not in h.name:
+            continue
+        for t in range(trials):
+            case = h.cases[t % len(h.cases)]
+            ctx = Ctx({}, h, case)
+            ctx.fuzz = rng
+            try:
+                h.fn(ctx, *case)
+                res["runs"] += 1
+            except ReplayPrecondition:
+                res["skipped"] += 1
+            except Exception:
+                import traceback
+                res["errors"].append(traceback.format_exc()[-600:])
+            finally:
+                for p in getattr(ctx, "_patches", []):
+                    try:
+                        p.stop()
+                    except Exception:
+                        pass
+            res["clauses"] += len(ctx.results)
+            for n, ok in ctx.results:
+                if not ok:
+                    res["failed"][n] = res["failed"].get(n, 0) + 1
+    res["errors"] = res["errors"][:3]
+    print(json.dumps(res))
+    return 0
+
+
 if __name__ == "__main__":
+    if sys.argv[1] == "--fuzz":
+        sys.exit(fuzz(sys.argv[2], sys.argv[3], int(sys.argv[4]), int(os.environ.get("VERIF_SEED", "0") or 0)))
     sys.exit(main(sys.argv[1]))
